@@ -34,6 +34,7 @@ except ImportError:
 
 from pydantic import Field, PositiveFloat, ConfigDict
 
+import processscheduler.base
 from processscheduler.base import BaseModelWithJson
 from processscheduler.indicator import IndicatorFromMathExpression
 from processscheduler.objective import Objective
@@ -428,15 +429,21 @@ class SchedulingSolver(BaseModelWithJson):
         self.append_z3_assertion(
             equivalent_single_objective == z3.Sum(weighted_objectives)
         )
-        # create an indicator
-        equivalent_indicator = IndicatorFromMathExpression(
-            name="EquivalentIndicator", expression=equivalent_single_objective
-        )
-        equivalent_objective = Objective(
-            name="MinimizeEquivalentObjective",
-            target=equivalent_indicator,
-            kind=obj.kind,
-        )
+        # create an indicator. New elements register themselves in the active problem:
+        # make sure it is the problem being solved, not the last one created
+        previous_active_problem = processscheduler.base.active_problem
+        processscheduler.base.active_problem = self.problem
+        try:
+            equivalent_indicator = IndicatorFromMathExpression(
+                name="EquivalentIndicator", expression=equivalent_single_objective
+            )
+            equivalent_objective = Objective(
+                name="MinimizeEquivalentObjective",
+                target=equivalent_indicator,
+                kind=obj.kind,
+            )
+        finally:
+            processscheduler.base.active_problem = previous_active_problem
         self._objective = equivalent_objective
         self.append_z3_assertion(equivalent_indicator.get_z3_assertions())
         return equivalent_objective, equivalent_indicator
